@@ -305,6 +305,7 @@ func main() {
 	var queue []pend
 	pairFlushes := 0
 	nbSeq := 0
+	hllKeys := map[string]bool{}
 	flushPair := func() {
 		if len(queue) == 0 {
 			return
@@ -435,13 +436,43 @@ func main() {
 				}
 			}
 			if verdict == "eq" {
+				// the stored bytes of a HyperLogLog value are not a function of the applied commands (gob
+				// encoding of a Go map, written back when the cache evicts it; C07's open finding): keys
+				// written by PFADD are left out of the comparison
+				for _, sl := range flat {
+					if len(sl.req.args) > 1 && strings.ToLower(string(sl.req.args[0])) == "pfadd" {
+						k := sl.req.args[1]
+						if sl.req.dtype == node.RedisV2Req {
+							if c, err := common.CutNamesapce(k); err == nil {
+								k = c
+							}
+						}
+						hllKeys[string(k)] = true
+					}
+				}
+				notHLL := func(d [][]byte) [][]byte {
+					var out [][]byte
+					for _, ek := range d {
+						hit := false
+						for hk := range hllKeys {
+							if hk != "" && bytes.Contains(ek, []byte(hk)) {
+								hit = true
+								break
+							}
+						}
+						if !hit {
+							out = append(out, ek)
+						}
+					}
+					return out
+				}
 				da := dumpStore(ra.st.RockDB)
-				if d := diffDump(da, dumpStore(rb.st.RockDB)); len(d) > 0 {
+				if d := notHLL(diffDump(da, dumpStore(rb.st.RockDB))); len(d) > 0 {
 					verdict = "diverged"
-					detail = hx.H(d[0])
-				} else if d := diffDump(da, dumpStore(rc.st.RockDB)); len(d) > 0 {
+					detail = hx.H(trunc2(d[0], 80))
+				} else if d := notHLL(diffDump(da, dumpStore(rc.st.RockDB))); len(d) > 0 {
 					verdict = "divergedC"
-					detail = hx.H(d[0])
+					detail = hx.H(trunc2(d[0], 80))
 				}
 			}
 		}
@@ -491,6 +522,15 @@ func main() {
 				kind = "i"
 			}
 		}
+		// arguments above 2 MiB are not given to the extracted model (lists of millions of numbers): such
+		// vectors are judged by the direct oracle only
+		huge := false
+		for _, a := range v.args {
+			if len(a) > 2<<20 {
+				huge = true
+			}
+		}
+		co.mute, io.mute = huge, huge
 		if name == "__sleep" && len(v.args) == 2 {
 			// replay files only: let wall-clock time pass (live node) and move the replicas' clock
 			ms, _ := strconv.Atoi(string(v.args[1]))
@@ -730,6 +770,7 @@ func main() {
 			flushAt = 1 + r.Pick(6)
 		}
 	}
+	co.mute, io.mute = false, false
 	flushPair()
 	oo.Printf("END\tvectors=%d stalls=%d untemplated=%s\n", len(vecs), stalls, strings.Join(untemplated, ","))
 	fmt.Fprintf(jf, "END\n")
@@ -737,8 +778,9 @@ func main() {
 }
 
 type outF struct {
-	f *os.File
-	w *bufio.Writer
+	f    *os.File
+	w    *bufio.Writer
+	mute bool // lines of the current vector are not written (vectors too large for the extracted model)
 }
 
 func createOut(path string) *outF {
@@ -746,11 +788,15 @@ func createOut(path string) *outF {
 	if err != nil {
 		panic(err)
 	}
-	return &outF{f, bufio.NewWriterSize(f, 1<<20)}
+	return &outF{f: f, w: bufio.NewWriterSize(f, 1<<20)}
 }
-func (o *outF) Printf(format string, a ...interface{}) { fmt.Fprintf(o.w, format, a...) }
-func (o *outF) Flush()                                 { o.w.Flush() }
-func (o *outF) Close()                                 { o.w.Flush(); o.f.Close() }
+func (o *outF) Printf(format string, a ...interface{}) {
+	if !o.mute {
+		fmt.Fprintf(o.w, format, a...)
+	}
+}
+func (o *outF) Flush() { o.w.Flush() }
+func (o *outF) Close() { o.w.Flush(); o.f.Close() }
 
 // dangerClass recognises the input classes of known findings that take the process down
 // (used only with -avoid, i.e. while the finding is open).
@@ -790,6 +836,13 @@ func firstN(r []reply) int64 {
 		return -1
 	}
 	return r[0].n
+}
+
+func trunc2(b []byte, n int) []byte {
+	if len(b) > n {
+		return b[:n]
+	}
+	return b
 }
 
 func trunc(s string, n int) string {
